@@ -25,8 +25,9 @@ pub fn alg_from(s: &str) -> Algorithm {
     }
 }
 
-pub const STACKS: [&str; 11] = [
+pub const STACKS: [&str; 12] = [
     "none",
+    "replace_over_compact",
     "mutref",
     "replace_ref",
     "nofinish",
@@ -138,6 +139,10 @@ where
             let mut d = Rec::new(c.fail_at);
             let mut r = &mut d;
             run_alg(c, &mut r, old, new)
+        }
+        "replace_over_compact" => {
+            let mut d = Replace::new(Compact::new(Rec::new(c.fail_at), old, new));
+            run_alg(c, &mut d, old, new)
         }
         "replace_ref" => {
             // Replace over a hook handed over by reference: replace and finish go through `&mut D`
